@@ -872,6 +872,11 @@ WRAPS = [
     ("map_implicit_step", OO, "oo |> >>> |> %s ~|> |v: Option<u8>| v.or(Some(7))" % (F1 % C(1)), "oo.map(|v| v.map(%s)).map(|v: Option<u8>| v.or(Some(7)))" % (F1 % C(1)), "Option<Option<u8>>", 0),
     ("map_empty_inner", OO, "oo |> >>> <<< |> |v: Option<u8>| v.or(Some(7))", "oo.map(|v| v).map(|v: Option<u8>| v.or(Some(7)))", "Option<Option<u8>>", 0),
     ("map_deferred_wrapper", OO, "oo ~|> >>> |> %s <<< |> |v: Option<u8>| v.or(Some(7))" % (F1 % C(1)), "oo.map(|v| v.map(%s)).map(|v: Option<u8>| v.or(Some(7)))" % (F1 % C(1)), "Option<Option<u8>>", 0),
+    # several explicit `<<<` directly before a `~` operator in ONE branch (three steps, a wrapper closed explicitly at the end of two)
+    ("two_closes_before_deferred", OO, "oo |> >>> |> %s <<< ~|> >>> |> |x: u8| x.wrapping_mul(3) <<< ~|> |v: Option<u8>| v.or(Some(7)) |> |v: Option<u8>| v.map(|x| x.wrapping_add(1))" % (F1 % C(1)),
+     "oo.map(|v| v.map(%s)).map(|v| v.map(|x: u8| x.wrapping_mul(3))).map(|v: Option<u8>| v.or(Some(7))).map(|v: Option<u8>| v.map(|x| x.wrapping_add(1)))" % (F1 % C(1)), "Option<Option<u8>>", 0),
+    ("three_closes_before_deferred", OO, "oo |> >>> |> %s <<< ~|> >>> ?> |x: &u8| *x > 3 <<< ~|> >>> |> |x: u8| x.wrapping_mul(3) <<< ~|> |v: Option<u8>| v.or(Some(7))" % (F1 % C(1)),
+     "oo.map(|v| v.map(%s)).map(|v| v.filter(|x: &u8| *x > 3)).map(|v| v.map(|x: u8| x.wrapping_mul(3))).map(|v: Option<u8>| v.or(Some(7)))" % (F1 % C(1)), "Option<Option<u8>>", 0),
     ("map_block_capture_inside", OO, "oo |> >>> |> { let k = tag(code(K_CAP, 0, 0, 1), 3u8); move |x: u8| x.wrapping_add(k) } <<<", "{ let k = tag(code(K_CAP, 0, 0, 1), 3u8); oo.map(|v| v.map(move |x: u8| x.wrapping_add(k))) }", "Option<Option<u8>>", 0),
     # block captures of ERROR operators inside the inner chain: evaluated once, before the step, also when the closure is
     # never called or called once per item
